@@ -145,6 +145,24 @@ def check_tensor(c):
                                   lambda: 'values (%r, %r) vs entries (%r, %r)' % (z1, z2, A[tuple(j1)], A[tuple(j2)]), tags)
                     res.check(z1 <= z2 + 1e-12 * max(amax, 1e-300) + 1e-13 * aabs, 'maxvol.order', case, lambda: 'min %r > max %r' % (z1, z2), tags)
     res.check(ref.core_bytes(Y) == Yb, 'input_untouched', c, 'tensor modified by an optimum search', tags)
+    # equivalent argument forms: NumPy-integer k, integer-typed cores, Fortran-ordered cores
+    if c.get('scaled'):
+        with warnings.catch_warnings():
+            warnings.simplefilter('ignore')
+            for k in (1, 2, N + 1):
+                res.ev()
+                b0 = teneva.optima_tt(Y, k)
+                forms = {'np.int64 k': (Y, np.int64(k)), 'fortran': ([np.asfortranarray(G) for G in Y], k)}
+                if exact and c['pat'] != 'plateau':
+                    forms['int-typed cores'] = ([G.astype(np.int64) for G in Y], k)
+                for nm, (Yf, kf) in forms.items():
+                    try:
+                        b1 = teneva.optima_tt(Yf, kf)
+                    except Exception as ex:
+                        res.fail('forms.raised', dict(c, k=k, form=nm), 'optima_tt raised %s for the form %s' % (type(ex).__name__, nm), tags + ['forms'])
+                        continue
+                    res.check(abs(b1[1] - b0[1]) <= 1e-12 * max(amax, 1e-300) and abs(b1[3] - b0[3]) <= 1e-12 * max(amax, 1e-300), 'forms', dict(c, k=k, form=nm),
+                              lambda: 'the form %s gives different optimum values %r vs %r' % (nm, (b1[1], b1[3]), (b0[1], b0[3])), tags + ['forms'])
     # extreme magnitudes: the optimum search must return the same entries, scaled
     if c.get('scaled'):
         for sc in (2.0 ** -400, 2.0 ** 400):
